@@ -1,6 +1,6 @@
 (* C02 — Pack followed by Unpack reproduces the source tree. *)
 From Slug Require Import Base.Str Base.PathAlg Base.PathLemmas FS.FS FS.FSProofs Slug.Unpack Slug.UnpackSafe Slug.Pack Slug.PackProofs
-  Slug.RoundTrip Slug.RoundTripPack.
+  Slug.RoundTrip Slug.RoundTripPack Ignore.Rules Ignore.RulesProofs Slug.PackIgnore Slug.RoundTripIgnore.
 
 (* glue between the two models: a Pack entry as the tar entry Unpack reads: RoundTripPack.to_entry *)
 
@@ -122,3 +122,64 @@ Example C02_round_trip_instance :
 Proof. vm_compute. repeat split. Qed.
 
 Print Assumptions C02_rounding.
+
+(* With ignore processing.  When the rule set never re-includes anything below
+   an entry it excludes ([closed_kids]: decided by evaluation, [closed_kidsb]),
+   the round trip yields exactly the tree with the excluded entries cut out
+   ([cut_kids]: an entry stays iff its own path is not excluded) - "the only
+   omissions are entries excluded by ignore rules and special files".  Any
+   file system, destination, option set, working directory, state of the shared
+   flags; rule_ok is evaluated per run.  (Where a rule set does re-include below
+   an excluded directory the slug holds entries whose parent has none, and
+   Unpack makes those parents with default metadata: outside this statement.) *)
+Theorem C02_round_trip_with_ignore :
+  forall fs opts flags cwd fuel pre x pmR mtR ks dst pmD mtD rules flags',
+    is_dir fs = true -> rdir fs pre -> forallb seg_ok (pre ++ [x]) = true ->
+    get fs (pre ++ [x]) = Some (to_node (SDir pmR mtR ks)) ->
+    sheight (SDir pmR mtR ks) < fuel ->
+    wf (SDir pmR mtR ks) -> wfs (SDir pmR mtR ks) -> links_ok [] (SDir pmR mtR ks) ->
+    load_rules fs opts flags cwd (join_abs (pre ++ [x])) = (rules, flags') ->
+    (forall rs, rules = Some rs -> flags_sound rs /\ (forall r, In r rs -> rule_ok r)) ->
+    closed_kids rules [] ks ->
+    dst_ok dst -> rdir fs (comps_of dst) -> get fs (comps_of dst) = Some (Dir pmD mtD []) ->
+    exists es files size,
+      pack fuel fs opts flags cwd (join_abs (pre ++ [x])) = (PackOk es files size, flags') /\
+      unpack true (o_allow opts) fs dst (map to_entry es)
+      = (put fs (comps_of dst)
+           (Dir pmD (match rpk (cut_kids rules [] ks) with [] => mtD | _ => None end) (rpk (cut_kids rules [] ks))), ROk).
+Proof. exact pack_unpack_round_trip_ignore. Qed.
+
+Theorem C02_closedness_is_decidable :
+  forall rules (pm : N) (mt : option Z) ks rel, closed_kidsb rules rel ks = true -> closed_kids rules rel ks.
+Proof. exact closed_kidsb_sound. Qed.
+
+(* an instance: the built-in rules and "*.log", "build/" on a tree with .git, logs and a build directory *)
+Example C02_with_ignore_instance :
+  let ign := s2l ("*.log" ++ String (ch 10) "build/") in
+  let t := SDir 493 None
+             [(s2l ".git", SDir 493 None [(s2l "HEAD", SFile (s2l "ref") 420 None)]);
+              (s2l ".terraformignore", SFile ign 420 (Some 1400000001000000000%Z));
+              (s2l "a.log", SFile (s2l "l") 420 None);
+              (s2l "build", SDir 493 None [(s2l "out", SFile (s2l "o") 420 None)]);
+              (s2l "main.tf", SFile (s2l "m") 420 (Some 1400000002000000000%Z))] in
+  let fs := Dir 493 None [(s2l "s", to_node t); (s2l "d", Dir 493 None [])] in
+  let opts := mkOpts false true [] in
+  match load_rules fs opts pristine_flags [] (s2l "/s"), t with
+  | (rules, _), SDir _ _ ks =>
+      closed_kidsb rules [] ks = true /\
+      map fst (cut_kids rules [] ks) = [s2l ".terraformignore"; s2l "main.tf"] /\
+      match fst (pack 10 fs opts pristine_flags [] (s2l "/s")) with
+      | PackOk es _ _ =>
+          match unpack true [] fs (s2l "/d") (map to_entry es) with
+          | (fs', r) => r = ROk /\
+              get fs' [s2l "d"] = Some (Dir 493 None [(s2l ".terraformignore", File ign 420 (Some 1400000001000000000%Z));
+                                                    (s2l "main.tf", File (s2l "m") 420 (Some 1400000002000000000%Z))])
+          end
+      | _ => False
+      end
+  | _, _ => False
+  end.
+Proof. vm_compute. repeat split. Qed.
+
+Print Assumptions C02_round_trip_with_ignore.
+Print Assumptions C02_closedness_is_decidable.
